@@ -1,5 +1,6 @@
 mod addr;
 mod common;
+mod det;
 mod kv;
 mod reg;
 mod tree;
@@ -27,6 +28,7 @@ fn run(id: &str, ctx: &Ctx) -> i32 {
         "C06" => kv::run_c06(ctx),
         "C07" => kv::run_c07(ctx),
         "C18" => addr::run_c18(ctx),
+        "C19" => det::run_c19(ctx),
         _ => machinery_error(&format!("no check for {}", id)),
     }
 }
@@ -44,6 +46,7 @@ fn replay(path: &str) -> i32 {
         "C06" => kv::replay_c06(&ctx, case),
         "C07" => kv::replay_c07(&ctx, case),
         "C18" => addr::replay_c18(&ctx, case),
+        "C19" => det::replay_c19(&ctx, case),
         _ => machinery_error(&format!("no replay for {}", id)),
     }
     let classes = ctx.violation_classes();
@@ -113,6 +116,15 @@ fn main() {
             }
             println!("n={} gen={:.3}s real={:.3}s model={:.3}s cmp={:.3}s  cache hits={} misses={}", n, tg, tr, tm, tc, world.obs_cache_hits, world.obs_cache_misses);
         });
+        return;
+    }
+    if args[1] == "C19-digest" {
+        if let Ok(n) = std::env::var("VERIF_THREADS") {
+            if let Ok(n) = n.parse::<usize>() {
+                rayon::ThreadPoolBuilder::new().num_threads(n).build_global().ok();
+            }
+        }
+        det::print_digest(if args[2] == "thorough" { Tier::Thorough } else { Tier::Quick });
         return;
     }
     let code = if args[1] == "replay" {
